@@ -324,10 +324,12 @@ Definition step (f : flavour) (st : mstate) (o : op) : mstate * (res * nat) :=
   | OSelf => (st, (RNone, O))       (* `if(this == &other) return *this;` *)
   end.
 
-(* the position the hinted MultiMap insert chose (input of the relational spec) *)
+(* the inputs of the relational spec: the position the hinted MultiMap insert chose, the rank of the
+   entry remove(key) removed *)
 Definition choice_of (f : flavour) (st : mstate) (o : op) : nat :=
   match o with
   | OHint pos k v => let '(_, _, rk) := c_insert_hint f pos k v (m_sel st) (m_next st) in rk
+  | ORemKey k => match find_rank f k (tr (m_sel st)) with Some i => i | None => O end
   | _ => O
   end.
 
